@@ -67,6 +67,7 @@ class Tr:
         self.ret = spec['ret']
         self.written = set()                            # heap fields this function writes (directly or through callees)
         self.aliased = set()                            # local names bound to a list that another name may share
+        self.range_vars = set()                         # loop variables of `for i in range(a, b)` loops
         self.OBJ = spec.get('obj_type', 'obj')          # Coq type of an object reference
         self.GET = spec.get('heap_get', 'get')          # heap accessors
         self.UPD = spec.get('heap_upd', 'upd')
@@ -964,6 +965,12 @@ class Tr:
                         and isinstance(n.targets[0].value, ast.Name) and n.targets[0].value.id in self.spec.get('keysets', ()) \
                         and n.targets[0].value.id not in names:
                     names.append(n.targets[0].value.id)
+                if isinstance(n, ast.Assign) and len(n.targets) == 1:
+                    t0_ = n.targets[0].value if isinstance(n.targets[0], ast.Subscript) else n.targets[0]
+                    if isinstance(t0_, ast.Attribute) and ast.unparse(t0_) in self.spec.get('table_fields', {}):
+                        nm_ = self.spec['table_fields'][ast.unparse(t0_)][0]
+                        if nm_ not in names:
+                            names.append(nm_)
                 if isinstance(n, ast.Expr) and isinstance(n.value, ast.Call) and isinstance(n.value.func, ast.Attribute) \
                         and n.value.func.attr == 'remove' and isinstance(n.value.func.value, ast.Name) \
                         and n.value.func.value.id in self.spec.get('locals', {}) and n.value.func.value.id not in names:
@@ -998,6 +1005,8 @@ class Tr:
                                 and t.value.attr in self.spec.get('obj_writes', {}):
                             pass
                         elif isinstance(t, ast.Subscript) and isinstance(t.value, ast.Name) and t.value.id in self.spec.get('keysets', ()):
+                            pass
+                        elif ast.unparse(t.value if isinstance(t, ast.Subscript) else t) in self.spec.get('table_fields', {}):
                             pass
                         elif not isinstance(t, ast.Name):
                             raise Unsupported('assignment to %s' % ast.unparse(t))
@@ -1205,6 +1214,22 @@ class Tr:
                 return '(if existsb (%s %s) %s then %s else Crash ValueError)' % (
                     self.eqb(lt[1]), a2, env[lname][0], self.bind(lname, '(%s %s %s)' % (self.ops.get('remove1', 'remove1'), a2, env[lname][0]), lt, env, nxt))
             return self.expr(s.value.args[0], env, removed)
+        tf = self.spec.get('table_fields', {})
+        if isinstance(s, ast.Assign) and len(s.targets) == 1 and isinstance(s.targets[0], ast.Attribute) \
+                and ast.unparse(s.targets[0]) in tf and isinstance(s.value, ast.Dict) and not s.value.keys:
+            nm, tt_ = tf[ast.unparse(s.targets[0])]
+            env2 = dict(env)
+            env2[nm] = ('[]', tt_)
+            return nxt(env2)
+        if isinstance(s, ast.Assign) and len(s.targets) == 1 and isinstance(s.targets[0], ast.Subscript) \
+                and ast.unparse(s.targets[0].value) in tf:
+            # self.f[i] = e with i the variable of the enclosing `for i in range(0, n)`: the i-th entry of a table that is
+            # filled in index order (a dict with the keys 0 .. n-1, read with nth afterwards)
+            nm, tt_ = tf[ast.unparse(s.targets[0].value)]
+            ix = s.targets[0].slice
+            if not (isinstance(ix, ast.Name) and ix.id in self.range_vars) or nm not in env:
+                raise Unsupported('%s: the index must be the variable of an enclosing range loop' % ast.unparse(s.targets[0]))
+            return self.expr(s.value, env, lambda a, ta: self.bind(nm, '(%s ++ [%s])' % (env[nm][0], self.coerce(a, ta, tt_[1])), tt_, env, nxt))
         ks = self.spec.get('keysets', ())
         if isinstance(s, ast.Assign) and len(s.targets) == 1 and isinstance(s.targets[0], ast.Subscript) \
                 and isinstance(s.targets[0].value, ast.Name) and s.targets[0].value.id in ks:
@@ -1478,6 +1503,7 @@ class Tr:
         exs = ' '.join(a for a, _ in extras)
         if isinstance(it, ast.Call) and ast.unparse(it.func) == 'range' and len(it.args) == 2:
             n, i, n2 = self.fresh('n'), self.fresh(s.target.id), self.fresh('n')
+            self.range_vars.add(s.target.id)
             e_body = env_in(env)
             e_body[s.target.id] = (i, 'Z')
             name = self.loop_name()
@@ -1578,6 +1604,9 @@ class Tr:
 
         def fall(env1):
             st = self.state_names()
+            if sp.get('result_field'):
+                # a constructor translated as the function from its arguments to the table it builds
+                return 'Ok %s' % env1[sp['table_fields'][sp['result_field']][0]][0]
             if sp.get('generator'):
                 return 'Ok %s' % env1['$yielded'][0]
             if isinstance(self.ret, tuple) and self.ret[0] == 'option':
